@@ -55,7 +55,7 @@ def run(chk):
     enlarge = (not proved) or bool(chk.broken)
     if enlarge:
         chk.cov["search"] = ("theorem file / translator / table tie broke: the differential run is enlarged to "
-                             "the thorough plans and 20x the random pipelines; it is the search for a failing input")
+                             "the thorough plans and 8x the random pipelines; it is the search for a failing input")
     P = plans("thorough" if enlarge else tier)
     hist = {"plans": {}, "recipes": 0, "random_pipelines": 0, "construct_errors": [], "timeouts": [],
             "stage_histogram": {}}
@@ -63,7 +63,7 @@ def run(chk):
     cases = [r for r in R if r.c04]
     hist["recipes"] = len(cases)
     pool = ac.stage_pool(R)
-    npipe = {"quick": 250, "thorough": 3000}[tier] * (20 if enlarge and tier == "quick" else 1)
+    npipe = {"quick": 250, "thorough": 3000}[tier] * (8 if enlarge and tier == "quick" else 1)
     pipes, seen = [], set()
     for _ in range(npipe):
         p = ac.random_pipeline(chk.rng, pool)
@@ -115,7 +115,7 @@ def run(chk):
                                 "subscriptions": res["subs"],
                                 "expected": "every subscription yields the same sequence as the first",
                                 "operators_used": list(m.uses)},
-                          size=len(getattr(m, "stages", [m])))
+                          size=len(m.uses) + 2 * (len(getattr(m, "stages", [m])) - 1))
     # recipes must exist for (almost) every public operator: measured by introspection
     pub = ac.public_operator_names()
     have = {r.name for r in R}
